@@ -152,9 +152,9 @@ def model_request(case):  # noqa: F811
     vals = list(case["srcs"][0]["script"]) + [v for k, v in case["params"].items() if isinstance(v, list)]
     if not all(_plain(v) for v in vals):
         return None
-    if case["tool"] in ("nlargest", "nsmallest") and case["params"].get("key") is None and len(vals) >= 2 \
-            and any(v[0] not in ("o", "i", "b") for v in case["srcs"][0]["script"]):
-        return None     # equal-but-unorderable items: decided by tuple comparison (== before <); oracle only
+    if case["tool"] in ("min", "max", "sorted", "nlargest", "nsmallest") and case["params"].get("key") is None \
+            and any(v[0] == "t" for v in case["srcs"][0]["script"]):
+        return None     # tuples are orderable in Python (lexicographically); the value model orders numbers and objects only
     return tools.model_request(case)
 
 
